@@ -28,13 +28,17 @@ instead of raising), C15-2 (a91c2bd: lldp `__str__` of a MAC-subtype id that is 
 an object whose parse gave up), C15-4 (1392d59: a TCP option must end inside the header); `Cfg.head` is the tree before
 those five commits (what HEAD was when the defects were found), kept for the `…_defect` witnesses.
 
-Layers handed to a parser that is not behaviour-modelled (ipv6, icmpv6, dhcp, dns, rip, vxlan, igmp, gre, mpls, eapol/eap, the
-MPTCP option) end the model's chain as `Frame.foreign cls bytes`: the model says which class is called with which bytes and
-nothing about what that class does.
+Phase 2 (`cfg.ext`) adds the parsers of mpls, eapol/eap, ipv6 (+extension headers), icmpv6 (+NDP), igmp, gre, vxlan, rip, dns,
+dhcp as `Frame.ext`; where the code lets an exception escape there, the model raises `PErr.known site` (the registered findings
+C15-K5 … K14).  With `cfg.ext = false` (the phase-1 model, `Cfg.core`) those layers end the chain as `Frame.foreign cls bytes`:
+the model says which class is called with which bytes and nothing about what that class does.  A TCP segment with the MPTCP
+option is foreign in both.  `pack()` / `str()` of the phase-2 classes are not modelled.
 
 Python anchors: ethernet.py:110-138, vlan.py:66-82, llc.py:63-127, arp.py:80-125, ipv4.py:92-173, udp.py:76-119,
 tcp.py:580-648, icmp.py:103-319, lldp.py:108-200 (`next_tlv`, `parse`), 236-262 (`simple_tlv.parse/pack`), 340-530 (TLV bodies),
-packet_base.py:97-133 (`__str__`, `dump`), 192-209 (`pack`).
+packet_base.py:97-133 (`__str__`, `dump`), 192-209 (`pack`); phase 2: mpls.py:60-86, eapol.py:83-101, eap.py:153-186,
+vxlan.py:80-99, rip.py:86-111, dns.py:265-330, dhcp.py:176-266, ipv6.py:100-118, 172-183, 326-395, icmpv6.py:122-224, 485-800,
+840-918, 962-1005, gre.py:102-149, igmp.py:109-193.
 -/
 namespace Pox.Parse
 open Pox Pox.Layout Pox.Packet Pox.Checksum
@@ -202,6 +206,25 @@ structure Igmp where
   extra : Bytes
   deriving DecidableEq, Repr
 
+structure Dhcp where
+  op : Nat
+  htype : Nat
+  hlen : Nat
+  hops : Nat
+  xid : Nat
+  secs : Nat
+  flags : Nat
+  ciaddr : Nat
+  yiaddr : Nat
+  siaddr : Nat
+  giaddr : Nat
+  chaddr : Bytes                       -- raw[28:44]; an EthAddr of its first 6 bytes when hlen = 6
+  sname : Bytes
+  file : Bytes
+  magic : Bytes
+  options : Option (List (Nat × Bytes))   -- `None`: parse returned before `self.options` exists (hlen > 16, bad magic cookie)
+  deriving DecidableEq, Repr
+
 /-- header objects of the phase-2 classes (one constructor of `Frame` for all of them) -/
 inductive Ext where
   | mpls (h : Mpls)
@@ -222,6 +245,7 @@ inductive Ext where
   | ndNA (flags : Nat) (target : Bytes) (opts : List NdOpt)
   | gre (h : Gre)
   | igmp (h : Igmp)
+  | dhcp (h : Dhcp)
   deriving DecidableEq, Repr
 
 def Ext.cls : Ext → String
@@ -229,6 +253,7 @@ def Ext.cls : Ext → String
   | .ipv6 _ => "ipv6" | .icmp6 _ => "icmpv6" | .echo6 _ => "echo6" | .unreach6 _ => "unreach6" | .timeEx6 => "TimeExceeded"
   | .tooBig6 _ => "PacketTooBig" | .ndRS _ => "NDRouterSolicitation" | .ndRA _ _ _ _ _ _ => "NDRouterAdvertisement"
   | .ndNS _ _ => "NDNeighborSolicitation" | .ndNA _ _ _ => "NDNeighborAdvertisement" | .gre _ => "gre" | .igmp _ => "igmp"
+  | .dhcp _ => "dhcp"
 
 /-- a parsed object chain.  Every packet object keeps the bytes it was given (`self.raw`). -/
 inductive Frame where
@@ -253,7 +278,7 @@ inductive Frame where
 
 inductive K where
   | eth | vlan | llc | arp | ipv4 | udp | tcp | icmp | echo | unreach | timeEx | lldp
-  | mpls | eapol | eap | vxlan | rip | dns | ipv6 | echo6 | unreach6 | gre | igmp
+  | mpls | eapol | eap | vxlan | rip | dns | ipv6 | echo6 | unreach6 | gre | igmp | dhcp
   | icmp6 (src dst : Bytes)       -- icmpv6 verifies its checksum against the addresses of `self.prev`
   deriving DecidableEq, Repr
 
@@ -414,7 +439,7 @@ def ipv4Parse (cfg : Cfg) (next : K → Bytes → P Frame) (raw : Bytes) : P Fra
 def udpPayload (cfg : Cfg) (next : K → Bytes → P Frame) (cls : String) (k : K) (body : Bytes) : P Frame :=
   if cfg.ext then next k body else pure (.foreign cls body)
 
-/-- udp.py:76-119.  DHCP (ports 67/68) is not behaviour-modelled. -/
+/-- udp.py:76-119 -/
 def udpParse (cfg : Cfg) (next : K → Bytes → P Frame) (raw : Bytes) : P Frame :=
   let dlen := raw.length
   if dlen < 8 then pure (.unparsed "udp" raw) else
@@ -424,7 +449,7 @@ def udpParse (cfg : Cfg) (next : K → Bytes → P Frame) (raw : Bytes) : P Fram
     if len < 8 then pure (.udp h raw .nil)
     else
       let r : P Frame :=
-        if dport = 67 ∨ dport = 68 then pure (.foreign "dhcp" (raw.drop 8))
+        if dport = 67 ∨ dport = 68 then udpPayload cfg next "dhcp" .dhcp (raw.drop 8)
         else if dport = 53 ∨ sport = 53 then udpPayload cfg next "dns" .dns (raw.drop 8)
         else if dport = 5353 ∨ sport = 5353 then udpPayload cfg next "dns" .dns (raw.drop 8)
         else if dport = 520 ∨ sport = 520 then udpPayload cfg next "rip" .rip (raw.drop 8)
@@ -737,6 +762,51 @@ def dnsParse (raw : Bytes) : P Frame :=
   | .ok _ => .error .struct
   | .error e => .error e
 
+/-! ### DHCP (with C15-5) -/
+
+def dhcpL : Layout := [.uint 1, .uint 1, .uint 1, .uint 1, .uint 4, .uint 2, .uint 2, .uint 4, .uint 4, .uint 4, .uint 4]  -- '!BBBBIHHIIII'
+
+/-- `self.options[opt] += data` if the code is already there (RFC 3396), else a new entry at the end -/
+def optAdd : List (Nat × Bytes) → Nat → Bytes → List (Nat × Bytes)
+  | [], c, d => [(c, d)]
+  | (c', d') :: r, c, d => if c' = c then (c', d' ++ d) :: r else (c', d') :: optAdd r c d
+
+/-- dhcp.py:244-266 `parseOptionSegment(barr)`; every index is guarded, `fuel` bounds the loop (each round advances `ofs`) -/
+def dhcpOpts (barr : Bytes) : Nat → Nat → List (Nat × Bytes) → P (List (Nat × Bytes))
+  | 0, _, _ => .error .fuel
+  | fuel+1, ofs, acc =>
+    if ofs < barr.length then
+      match idx barr ofs with
+      | .error e => .error e
+      | .ok opt =>
+        if opt = 255 then pure acc
+        else if opt = 0 then dhcpOpts barr fuel (ofs + 1) acc
+        else if ofs + 1 ≥ barr.length then pure acc
+        else match idx barr (ofs + 1) with
+          | .error e => .error e
+          | .ok len =>
+            if ofs + 2 + len > barr.length then pure acc
+            else dhcpOpts barr fuel (ofs + 2 + len) (optAdd acc opt (sl barr (ofs + 2) (ofs + 2 + len)))
+    else pure acc
+
+/-- dhcp.py:176-218.  The overload option never takes effect (`opt_val == 1` compares bytes with an int, dhcp.py:239-242);
+`unpackOptions` wraps every option class in `try/except` and falls back to the raw bytes, so the option *codes and bytes* below
+are what the object holds. -/
+def dhcpParse (raw : Bytes) : P Frame :=
+  if raw.length < 240 then pure (.unparsed "dhcp" raw) else
+  match unpackE dhcpL (raw.take 28) with
+  | .ok [.num op, .num htype, .num hlen, .num hops, .num xid, .num secs, .num flags, .num ci, .num yi, .num si, .num gi] =>
+    let magic := sl raw 236 240
+    let mk (o : Option (List (Nat × Bytes))) : Dhcp :=
+      ⟨op, htype, hlen, hops, xid, secs, flags, ci, yi, si, gi, sl raw 28 44, sl raw 44 108, sl raw 108 236, magic, o⟩
+    if hlen > 16 then pure (.ext (.dhcp (mk none)) raw .nil)
+    else if magic ≠ [0x63, 0x82, 0x53, 0x63] then pure (.ext (.dhcp (mk none)) raw .nil)
+    else match dhcpOpts (raw.drop 240) (raw.length + 1) 0 [] with
+      | .ok os => pure (.ext (.dhcp (mk (some os))) raw .nil)
+      | .error e => .error e
+  | .ok _ => .error .struct
+  | .error e => .error e
+
 /-! ### IPv6 -/
 
 /-- outcome of the extension-header loop (ipv6.py:357-373): `none` = `parse` returned early (object stays unparsed) -/
@@ -851,9 +921,11 @@ def icmp6Body (next : K → Bytes → P Frame) (type : Nat) (raw : Bytes) : P Fr
     | .error e => .error e
   else if type = 134 then
     if raw.length < 16 then .error (.known .k8)                              -- struct.unpack_from("!BBHII", raw, 4)
-    else match ndOptsOf raw 16 with
-      | .ok os => pure (.ext (.ndRA (beDec (sl raw 4 5)) (beDec (sl raw 5 6)) (beDec (sl raw 6 8)) (beDec (sl raw 8 12))
-                                   (beDec (sl raw 12 16)) os) body .nil)
+    else match ndOpts raw raw.length 16 [] with
+      -- the M/O flags are assigned after the options were read (icmpv6.py:561-563): a TruncatedException leaves them False
+      | .ok none => pure (.ext (.ndRA (beDec (sl raw 4 5)) 0 (beDec (sl raw 6 8)) (beDec (sl raw 8 12)) (beDec (sl raw 12 16)) []) body .nil)
+      | .ok (some os) => pure (.ext (.ndRA (beDec (sl raw 4 5)) (beDec (sl raw 5 6)) (beDec (sl raw 6 8)) (beDec (sl raw 8 12))
+                                          (beDec (sl raw 12 16)) os) body .nil)
       | .error e => .error e
   else if type = 135 then
     if (sl raw 8 24).length ≠ 16 then .error (.known .k5v)                   -- IPAddr6(raw=raw[8:24])
@@ -1065,6 +1137,7 @@ def parseD (cfg : Cfg) : Nat → K → Bytes → P Frame
     | .unreach6 => unreach6Parse (parseD cfg d) raw
     | .gre => greParse (parseD cfg d) raw
     | .igmp => igmpParse raw
+    | .dhcp => dhcpParse raw
 
 /-- `ethernet(raw=bs)` with `d` nested activations available (`PacketIn.parsed` is exactly this call,
 openflow/__init__.py:182-185) -/
